@@ -10,8 +10,8 @@ func init() {
 			"(PREALLOC) a trip's StopTimes is replaced by a pre-allocated slice only while it is still empty, so interleaved rows lose nothing; (CACHE) the current-trip cache changes pointer and key together, from one lookup. " +
 			"Not decided: sort.Slice itself; equal sequence numbers (excluded by the property).",
 		Rules: []Rule{
-			{Name: "ORDER", Doc: "per-group sorts, comparators, tail appends, pre-allocation guard, cache coherence", MinInstances: 12, Run: runStaticOrder},
-			{Name: "G6", Doc: "map-built output sorted by key", MinInstances: 3, Run: func(c *Ctx) { runG6(c, staticParseFns(c)) }},
+			{Name: "ORDER", Doc: "per-group sorts, comparators, tail appends, pre-allocation guard, cache coherence", MinInstances: 8, Run: runStaticOrder},
+			{Name: "G6", Doc: "map-built output sorted by key", MinInstances: 2, Run: func(c *Ctx) { runG6(c, staticParseFns(c)) }},
 		},
 	})
 }
